@@ -368,12 +368,45 @@ def nested_caches() -> Optional[dict]:
     return None
 
 
+def several_event_loops(prefix: str = "C20") -> Optional[dict]:
+    """One shared instance used by overlapping tasks under one event loop, then under another, then under a third
+    (each `asyncio.run` makes a new one): every call returns what the wrapped validator returns alone."""
+    import asyncio
+    from koda_validate import IntValidator, ListValidator, Min, StringValidator
+    for policy in ("eq", "id"):
+        ct = Ctx(G.STD_CLASSES, []).ct
+        cnt = Counting(IntValidator(Min(0)))
+        cache = LogCache(cnt, policy, ct)
+        plain = ListValidator(cache)
+        batches = [[1, 1, -1], [2, 1, "x"], [-1, 3, 3], [[1, -1], [2], [1]]]
+        for bi, xs in enumerate(batches):
+            target = plain if isinstance(xs[0], list) else cache
+
+            async def together(target=target, xs=xs):
+                return await asyncio.gather(*[target.validate_async(x) for x in xs], return_exceptions=True)
+            loop = asyncio.new_event_loop()
+            try:
+                res = loop.run_until_complete(together())
+            except Exception as e:  # noqa
+                return {"signature": f"{prefix}:event-loops", "what": f"batch {bi} of overlapping calls {xs!r} under a new event loop raised {e!r}"}
+            finally:
+                loop.close()
+            for x, r in zip(xs, res):
+                ref = ListValidator(IntValidator(Min(0))) if isinstance(x, list) else IntValidator(Min(0))
+                want = ref(x)
+                if isinstance(r, Exception) or r.is_valid != want.is_valid or (r.is_valid and r.val != want.val):
+                    return {"signature": f"{prefix}:event-loops",
+                            "what": f"a cache ({policy} store) shared by overlapping tasks under {bi + 1} successive event loops: {x!r} gave {r!r}; "
+                                    f"the wrapped validator alone gives {want!r}"}
+    return None
+
+
 def cache_variants() -> Optional[dict]:
     """The wrapper stands for *the object it was given*, through that object's public entry points, whatever class the
     cache itself is: (i) a cache directly around another cache with another store policy, (ii) cache classes that
     inherit their hooks (a subclass adding nothing, one overriding only the setters, hooks from a mixin), (iii) a
     wrapped validator that is a user subclass of a built-in one overriding __call__ / validate_async."""
-    from koda_validate import IntValidator, StringValidator
+    from koda_validate import IntValidator, PredicateAsync, StringValidator
 
     def call(v, x, mode):
         return v(x) if mode == "sync" else drive(v.validate_async(x))
@@ -455,6 +488,36 @@ def cache_variants() -> Optional[dict]:
                     return {"signature": "C20:variants",
                             "what": f"{cls.__name__} ({policy} store, {mode}): after {seq!r} the wrapped validator ran {len(cnt.runs)} times and the store holds "
                                     f"{len(cache.store)} entries; two inputs are new, three are repetitions"}
+        # (iv) the wrapped validator is handed the caller's own object (what it returns names it by identity)
+        from koda_validate import AlwaysValid, IsDictValidator, ListValidator as _LV
+        for wrapped, xs_ in ((AlwaysValid(), [[1, 2], {"k": 1}, {3}]), (IsDictValidator(), [{"k": 1}, [1]]), (IntValidator(), [[1], {"a": 1}, {1}]),
+                             (_LV(IntValidator()), [["x"], {"k": 1}])):
+            cache_ = LogCache(Counting(wrapped), "id", ct)
+            for x in xs_:
+                r = call(cache_, x, mode)
+                held = r.val if r.is_valid else r.value
+                direct = call(wrapped, x, mode)
+                dheld = direct.val if direct.is_valid else direct.value
+                if (dheld is x) and held is not x:
+                    return {"signature": "C20:variants",
+                            "what": f"cache around {wrapped!r} ({mode}) on {x!r}: the wrapped validator alone hands back the caller's own object, "
+                                    f"through the cache the result holds another object ({r!r})"}
+        # (v) a stored result is a stored result whichever entry point asks: async miss, then a sync call - also when the
+        # wrapped validator itself could not run synchronously
+        class _Even(PredicateAsync):      # type: ignore
+            async def validate_async(self, val):
+                return val % 2 == 0
+        async_only = IntValidator(predicates_async=[_Even()])
+        cache2 = LogCache(async_only, "eq", ct)
+        for x in (2, 3, "s"):
+            first = drive(cache2.validate_async(x))
+            try:
+                second = cache2(x)
+            except Exception as e:  # noqa
+                return {"signature": "C20:variants",
+                        "what": f"cache around a validator with async-only predicates: {x!r} was validated (and stored) asynchronously; the sync call for the stored input raised {e!r}"}
+            if second.is_valid != first.is_valid:
+                return {"signature": "C20:variants", "what": f"async miss then sync hit on {x!r}: {first!r} then {second!r}"}
         # (iii) a wrapped user subclass overriding the public entry points
         v = Shouting()
         cache = LogCache(v, "eq", ct)
@@ -574,6 +637,10 @@ def run(tier: str, rng: random.Random, proof_ok: bool) -> dict:
     if nc and nc["signature"] not in seen:
         seen.add(nc["signature"])
         violations.append({"kind": "oracle", **nc, "replay_case": {"nested": True}})
+    sel = several_event_loops("C20")
+    if sel and sel["signature"] not in seen:
+        seen.add(sel["signature"])
+        violations.append({"kind": "oracle", **sel, "replay_case": {"event_loops": True}})
     cv = cache_variants()
     if cv and cv["signature"] not in seen:
         seen.add(cv["signature"])
@@ -671,6 +738,10 @@ def replay(path: str) -> int:
     if rc.get("nested"):
         r = nested_caches()
         print("violation:" if r else "property holds for nested cache wrappers", r["what"] if r else "")
+        return 1 if r else 0
+    if rc.get("event_loops"):
+        r = several_event_loops("C20")
+        print("violation:" if r else "property holds under several event loops", r["what"] if r else "")
         return 1 if r else 0
     if rc.get("variants"):
         r = cache_variants()
